@@ -77,36 +77,36 @@ Fixpoint scan (base : N) (s : str) (acc nd : N) (prev_us : bool) : option (N * N
 
 Definition split_sign (s : str) : bool * str :=
   match s with
-  | 43 :: t => (false, t)
-  | 45 :: t => (true, t)
-  | _ => (false, s)
+  | c :: t => if c =? 43 then (false, t) else if c =? 45 then (true, t) else (false, s)
+  | [] => (false, [])
   end.
 
 (* "0x" / "0X" prefix (base 16 only), one underscore allowed after it *)
 Definition skip_prefix (base : N) (s : str) : str :=
-  if base =? 16 then
-    match s with
-    | 48 :: x :: t => if (x =? 120) || (x =? 88) then match t with 95 :: t' => t' | _ => t end else s
-    | _ => s
-    end
-  else s.
+  match s with
+  | z :: x :: t =>
+      if (base =? 16) && (z =? 48) && ((x =? 120) || (x =? 88))
+      then match t with u :: t' => if u =? 95 then t' else t | [] => t end
+      else s
+  | _ => s
+  end.
+
+Definition starts_with_underscore (s : str) : bool :=
+  match s with c :: _ => c =? 95 | [] => false end.
 
 (* PyLong_FromString on the transformed text *)
 Definition int_ascii (lim base : N) (s : str) : option Z :=
   let (neg, s2) := split_sign (lstrip_c s) in
   let s3 := skip_prefix base s2 in
-  match s3 with
-  | 95 :: _ => None
-  | _ =>
-    match scan base s3 0 0 false with
-    | None => None
-    | Some (v, nd, rest) =>
-        if nd =? 0 then None
-        else if negb (forallb c_isspace rest) then None
-        else if (base =? 10) && over_limit lim nd then None
-        else Some (if neg then (- Z.of_N v)%Z else Z.of_N v)
-    end
-  end.
+  if starts_with_underscore s3 then None
+  else match scan base s3 0 0 false with
+       | None => None
+       | Some (v, nd, rest) =>
+           if nd =? 0 then None
+           else if negb (forallb c_isspace rest) then None
+           else if (base =? 10) && over_limit lim nd then None
+           else Some (if neg then (- Z.of_N v)%Z else Z.of_N v)
+       end.
 
 Definition int_parse (lim base : N) (s : str) : option Z :=
   match transform s with Some a => int_ascii lim base a | None => None end.
